@@ -284,4 +284,5 @@ MUTANTS["C15"] = [
     ("peer-options-multihop-is-bool (revert of a80614b)", "annet/bgp_models.py", "    multipath: Optional[bool] = None\n    multihop: Optional[int] = None\n", "    multipath: Optional[bool] = None\n    multihop: Optional[bool] = None\n"),
     ("peer-key-uses-own-fqdn", "annet/mesh/executor.py", "                    fqdn=pair.device.fqdn,\n                    addr=addr,\n                    vrf=getattr(pair.connected", "                    fqdn=device.fqdn,\n                    addr=addr,\n                    vrf=getattr(pair.connected"),
     ("executor-remembers-first-devices-ports", "annet/mesh/executor.py", "                for p1, p2 in self._storage.search_connections(device, neighbor_device)\n", "                for p1, p2 in self.__dict__.setdefault('_vf_conn', {}).setdefault(frozenset((device.fqdn, neighbor_device.fqdn)), list(self._storage.search_connections(device, neighbor_device)))\n"),
+    ("filter-type-errors-escape", "annet/mesh/match_args.py", "        except (TypeError, ValueError, AttributeError, KeyError, IndexError):", "        except (ValueError, AttributeError, KeyError, IndexError):"),
 ]
